@@ -44,6 +44,9 @@ rewrites) with the real CPython methods, object state included.
                           ->  `self.<path> = E`.
    C8 generator helper      `self.g()` with `g` an undeclared plain method whose whole body is `for PAT in IT: [if C:]
                           yield E` over pure expressions  ->  the generator expression `(E for PAT in IT [if C])`.
+   C7 loop over a display   `for X in (E1, ..., En): BODY` (names, n <= 4, no `else`/`break`; `continue` only as top-level
+                          `if C: continue`; `X` used only inside) -> BODY[X := E1]; ...; BODY[X := En], then
+                          `K is None` folded to False for the `**K` parameter (always a dict) and constant `if`s removed.
    C5 `operator.itemgetter(i)` as a sort key (name imported from `operator` at module level, never rebound),
                           `i` a constant  ->  `lambda x: x[i]`; `operator.index(e)` -> `e` when `e` is an `Int`-typed
                           loop variable is NOT done (no types here).
@@ -890,14 +893,127 @@ def _c8_generator_helpers(fdef, cls, tree, notes):
     fdef.body = [Tr().visit(st) for st in fdef.body]
 
 
+def _c7_unroll_display_loops(fdef, cls, notes):
+    """`for X in (E1, ..., En): BODY` (a tuple / list display of names, n <= 4, no `else`) -> BODY[X := E1]; ...;
+    BODY[X := En].  `X` is a name stored only by this loop and read only inside it; BODY contains no `break` of this
+    loop and `continue` only as top-level statements `if C: continue`, which become `if not C: <rest of BODY>`.
+    Afterwards `K is None` / `K is not None` for the `**K` parameter (always a dict, never rebound) are folded."""
+    kw = fdef.args.kwarg.arg if fdef.args.kwarg else None
+    if kw is not None and any(isinstance(n, ast.Name) and n.id == kw and isinstance(n.ctx, (ast.Store, ast.Del))
+                              for n in ast.walk(fdef)):
+        kw = None
+
+    def own_level(stmts, kinds):
+        """nodes of the given kinds that belong to THIS loop (not to a nested loop)"""
+        out = []
+        for st in stmts:
+            if isinstance(st, kinds):
+                out.append(st)
+            if isinstance(st, (ast.For, ast.While)):
+                out += own_level(st.orelse, kinds)
+                continue
+            for f in ('body', 'orelse', 'finalbody'):
+                out += own_level(getattr(st, f, []) or [], kinds)
+            for h in getattr(st, 'handlers', []) or []:
+                out += own_level(h.body, kinds)
+        return out
+
+    def fold(node):
+        class F(ast.NodeTransformer):
+            def visit_Compare(self, n):
+                self.generic_visit(n)
+                if kw and len(n.ops) == 1 and isinstance(n.left, ast.Name) and n.left.id == kw \
+                        and isinstance(n.comparators[0], ast.Constant) and n.comparators[0].value is None \
+                        and isinstance(n.ops[0], (ast.Is, ast.IsNot)):
+                    return ast.copy_location(ast.Constant(value=isinstance(n.ops[0], ast.IsNot)), n)
+                return n
+
+            def visit_UnaryOp(self, n):
+                self.generic_visit(n)
+                if isinstance(n.op, ast.Not) and isinstance(n.operand, ast.Constant) and isinstance(n.operand.value, bool):
+                    return ast.copy_location(ast.Constant(value=not n.operand.value), n)
+                return n
+
+            def visit_If(self, n):
+                self.generic_visit(n)
+                if isinstance(n.test, ast.Constant) and isinstance(n.test.value, bool):
+                    return (n.body if n.test.value else n.orelse) or [ast.copy_location(ast.Pass(), n)]
+                return n
+        return F().visit(node)
+
+    def unroll(loop):
+        if not (isinstance(loop.iter, (ast.Tuple, ast.List)) and 1 <= len(loop.iter.elts) <= 4
+                and all(isinstance(e, ast.Name) for e in loop.iter.elts) and isinstance(loop.target, ast.Name)
+                and not loop.orelse):
+            return None
+        x = loop.target.id
+        inside = {id(n) for n in ast.walk(loop)}
+        for n in ast.walk(fdef):
+            if isinstance(n, ast.Name) and n.id == x and (id(n) not in inside or (
+                    isinstance(n.ctx, (ast.Store, ast.Del)) and n is not loop.target)):
+                return None
+            if isinstance(n, ast.arg) and n.arg == x:
+                return None
+        if own_level(loop.body, (ast.Break,)):
+            return None
+        conts = own_level(loop.body, (ast.Continue,))
+        top = [st.body[0] for st in loop.body if isinstance(st, ast.If) and not st.orelse and len(st.body) == 1
+               and isinstance(st.body[0], ast.Continue)]
+        if len(conts) != len(top) or any(c not in top for c in conts):
+            return None
+        for e in loop.iter.elts:              # the items are evaluated before the loop: the body must not rebind them
+            if any(isinstance(n, ast.Name) and n.id == e.id and isinstance(n.ctx, (ast.Store, ast.Del))
+                   for n in ast.walk(loop)):
+                return None
+
+        def guard(stmts):
+            for i, st in enumerate(stmts):
+                if isinstance(st, ast.If) and not st.orelse and len(st.body) == 1 and isinstance(st.body[0], ast.Continue):
+                    rest = guard(stmts[i + 1:]) or [ast.copy_location(ast.Pass(), st)]
+                    neg = ast.copy_location(ast.UnaryOp(op=ast.Not(), operand=st.test), st)
+                    return stmts[:i] + [ast.copy_location(ast.If(test=neg, body=rest, orelse=[]), st)]
+            return stmts
+        out = []
+        for e in loop.iter.elts:
+            body = [_Subst({x: e}).visit(copy.deepcopy(st)) for st in guard(list(loop.body))]
+            for st in body:
+                r = fold(st)
+                out.extend(r if isinstance(r, list) else [r])
+        notes.add('C7 loop over the display (%s) unrolled' % ', '.join(e.id for e in loop.iter.elts))
+        return out or [ast.copy_location(ast.Pass(), loop)]
+
+    def rewrite(stmts):
+        out = []
+        for st in stmts:
+            if isinstance(st, ast.For):
+                r = unroll(st)
+                if r is not None:
+                    out.extend(rewrite(r))
+                    continue
+            for f in ('body', 'orelse', 'finalbody'):
+                if isinstance(getattr(st, f, None), list) and getattr(st, f) and isinstance(getattr(st, f)[0], ast.stmt):
+                    setattr(st, f, rewrite(getattr(st, f)))
+            for h in getattr(st, 'handlers', []) or []:
+                h.body = rewrite(h.body)
+            out.append(st)
+        return out
+    fdef.body = rewrite(fdef.body)
+
+
 def run(fdef: ast.FunctionDef, tree: ast.Module, spec: dict, info: dict = None) -> ast.FunctionDef:
     """the class-level pre-pass; the input object itself when nothing applies; never raises"""
     cls = spec.get('cls')
     if tree is None or cls is None or not cls.get('clsprep') or not fdef.args.args:
         return fdef
+    mt = fdef.__dict__.pop('_module_tree', None)     # (never copy the whole module along with the method)
     try:
         new, notes = copy.deepcopy(fdef), set()
-        for step in (lambda: _c2_bound_methods(new, cls, tree, notes),
+    finally:
+        if mt is not None:
+            fdef._module_tree = mt
+    try:
+        for step in (lambda: _c7_unroll_display_loops(new, cls, notes),
+                     lambda: _c2_bound_methods(new, cls, tree, notes),
                      lambda: _c1_attr_aliases(new, cls, tree, notes),
                      lambda: _c3_item_aliases(new, cls, tree, notes),
                      lambda: _c4_dict_loops(new, cls, notes),
